@@ -10,6 +10,15 @@ claim("C13", "symbolic execution of the crate's MIR (mirsym) + z3; counterexampl
       "and every pre-held pattern (symbolic), decided by z3 over all values; the for-all-inputs claim is exactly what a solver gives and tests cannot.",
       NOTE, "DESIGN.md section 3 (C13)")
 
+T = "symbolic execution of the crate's monomorphic MIR (mirsym) with z3 deciding path feasibility and monitor assertions; counterexample models replayed natively"
+
+claim("C03", T, "Bounded symbolic model checking: for every shape/API flavour within the bounds and every environment answer, the analysed thread holds nothing at the first raw operation of a call and whenever a key comes back (monitors on the auditing raw lock), decided over all symbolic arrangements and environment choices.", NOTE, "DESIGN.md section 3 (C03)")
+claim("C04", T, "Bounded symbolic model checking of every acquisition API on every shape within the bounds against a quiescent symbolic pre-state and an adversarial environment: holdings after Ok are exactly the leaves in the requested mode, after Err nothing, no blocking operation inside try_*, closure runs exactly once iff acquired.", NOTE, "DESIGN.md section 3 (C04)")
+claim("C05", T, "Bounded symbolic model checking with an auditing raw lock as oracle: every release issued by happylock is matched against the owner table (holder, mode) on every explored path; at the end of every path the thread holds nothing.", NOTE, "DESIGN.md section 3 (C05)")
+claim("C09", T, "Bounded symbolic model checking of RetryingLockCollection::raw_write/raw_read against an adversarial, eventually quiet environment: every wait event is checked for an empty held set (modulo private leaves of nested owned units) and every path must complete with all members held once interference stops; non-termination within the step budget is a candidate that is replayed natively.", NOTE, "DESIGN.md section 3 (C09)")
+claim("C11", T, "Bounded symbolic model checking with real unwinding semantics (MIR cleanup blocks, catch_unwind at intrinsic level): a user panic at a symbolic critical section of every shape/API/key style; after the caught unwind nothing is held, no release was unmatched, the key is obtainable/usable and the locks can be re-acquired; abort is detected as an outcome.", NOTE, "DESIGN.md section 3 (C11)")
+claim("C12", T, "Bounded symbolic fault injection decided by the solver: a one-shot panic at a symbolic raw-operation index (every operation of the call incl. rollback and unwind handlers) and the persistent fault classes of tests/evil_*.rs at symbolic positions; oracle = the statement (panic reaches caller, nothing else leaked, no foreign release, faulted lock refuses acquisition). Genuine defects are listed in known_findings.json by role.", NOTE, "DESIGN.md section 3 (C12), section 5")
+
 if __name__ == "__main__":
     m = write()
     print("claimed:", [c["property_id"] for c in m["checks"]])
